@@ -3,6 +3,8 @@ package props
 import (
 	"fmt"
 	"go/types"
+	"strings"
+	"verif/checker/internal/engb"
 
 	"verif/checker/internal/absint"
 	"verif/checker/internal/core"
@@ -16,6 +18,9 @@ import (
 type legacyVerdict struct {
 	ok, undecided bool
 	msg           string
+	// overrides: the decoder itself lets the legacy keyword change what the current one stated (both present): no fold discipline
+	// elsewhere can repair that, so the SSA fallback does not apply
+	overrides bool
 }
 
 // legacySemantic returns the verdict per "<Type>|<legacy keyword>".
@@ -105,7 +110,7 @@ func legacySemantic(c *core.Ctx) map[string]legacyVerdict {
 		case cur.val != leg.val:
 			out[k] = legacyVerdict{msg: fmt.Sprintf("{%q: v} decodes to %s but {%q: v} decodes to %s", p.current, cur.val, p.legacy, leg.val)}
 		case b1.val != cur.val || b2.val != cur.val:
-			out[k] = legacyVerdict{msg: fmt.Sprintf("with both keywords present the current one does not win: {%q: v, %q: w} decodes to %s / %s, {%q: v} alone to %s", p.current, p.legacy, b1.val, b2.val, p.current, cur.val)}
+			out[k] = legacyVerdict{overrides: true, msg: fmt.Sprintf("with both keywords present the current one does not win: {%q: v, %q: w} decodes to %s / %s, {%q: v} alone to %s", p.current, p.legacy, b1.val, b2.val, p.current, cur.val)}
 		default:
 			out[k] = legacyVerdict{ok: true, msg: "the legacy, the current and both mixed documents all decode to " + cur.val}
 		}
@@ -125,6 +130,10 @@ func legacyPair(c *core.Ctx, sem map[string]legacyVerdict, typ, legacy, current 
 		return
 	}
 	bok, how, pos := b()
+	if bok && v.overrides {
+		c.Fail("A-LEGACY", fn, key, pos, v.msg+" — the decoder writes the legacy entries over / next to the current ones (the SSA fold discipline sees only whole-field stores: "+how+")", nil)
+		return
+	}
 	if bok {
 		c.Pass("B-LEGACY", fn, key, "the decoder alone does not fold ("+v.msg+") but the fold discipline holds on the SSA: "+how)
 		return
@@ -134,4 +143,21 @@ func legacyPair(c *core.Ctx, sem map[string]legacyVerdict, typ, legacy, current 
 		return
 	}
 	c.Fail("A-LEGACY", fn, key, pos, v.msg+" — and the fold is not found elsewhere either ("+how+")", nil)
+}
+
+// ruleDefsAsWritten: the definitions a `#/$defs/X` reference resolves to are the ones the document states under "$defs": the legacy
+// "definitions" keyword is read only when "$defs" is absent and never changes an entry of "$defs" (both decoders; A-LEGACY + B-LEGACY).
+func ruleDefsAsWritten(c *core.Ctx) {
+	a := engb.New(c.Prog)
+	sem := legacySemantic(c)
+	for _, typ := range []string{"Schema", "Type"} {
+		p := engb.LegacyPair{Func: "(*pkg/schemas." + typ + ").UnmarshalJSON", CurTag: "$defs", LegacyTag: "definitions"}
+		legacyPair(c, sem, typ, p.LegacyTag, p.CurTag, func() (bool, string, string) {
+			r := a.LegacyFold(p)
+			if r.OK {
+				return true, r.How, r.Pos
+			}
+			return false, strings.Join(r.Problems, "; "), r.Pos
+		})
+	}
 }
